@@ -95,7 +95,7 @@ fn plan_for(property: &str, tier: &str, seed: u64, workers: usize) -> Result<Pla
             if asan_on {
                 batches.push(asan("native", runs(1_000_000, 50_000_000)));
             }
-            let m = miri_runs.unwrap_or(if thorough { 5_200 } else { 208 });
+            let m = miri_runs.unwrap_or(if thorough { 4_800 } else { 208 });
             if m > 0 {
                 batches.push(miri("inspect", m, 16));
             }
